@@ -536,11 +536,12 @@ def angdiff(a, b=None):
         >>> angdiff(3 * pi)
 
     """
-    # array_like: lists and tuples as well as arrays and scalars
-    if isinstance(a, (list, tuple)):
-        a = np.array(a)
-    if isinstance(b, (list, tuple)):
-        b = np.array(b)
+    # array_like: lists and tuples as well as arrays and scalars; computed in
+    # double precision (the difference of two unsigned values wraps around, a
+    # float32 value plus pi is rounded to float32)
+    a = np.asarray(a, dtype=np.float64)
+    if b is not None:
+        b = np.asarray(b, dtype=np.float64)
     if b is None:
         return np.mod(a + math.pi, 2 * math.pi) - math.pi
     else:
